@@ -490,6 +490,15 @@ pub fn fault_enumeration(op: &Op, action: Option<&Action>, sim: &Sim, _obs: &Obs
 // C16: queries vs raw dump and vs the purchase / cycle rules
 // ------------------------------------------------------------------------------------------
 
+/// every field of the stored record is reported with the stored value (a response may carry more)
+fn json_subset(stored: &Value, reported: &Value) -> bool {
+    match (stored, reported) {
+        (Value::Object(a), Value::Object(b)) => a.iter().all(|(k, v)| b.get(k).map_or(false, |w| json_subset(v, w))),
+        (Value::Array(a), Value::Array(b)) => a.len() == b.len() && a.iter().zip(b.iter()).all(|(x, y)| json_subset(x, y)),
+        (a, b) => a == b,
+    }
+}
+
 fn q(sim: &Sim, msg: &Value) -> Result<Value, String> {
     let b = sim.chain.smart_query(&sim.names.market, &serde_json::to_vec(msg).unwrap())?;
     serde_json::from_slice(b.as_slice()).map_err(|e| e.to_string())
@@ -571,7 +580,7 @@ fn probe_queries(arg: u64, sim: &Sim, obs: &Obs, mon: &Monitor) -> ProbeResult {
                                 None => r.findings.push(Finding::new("C16.page_content", "get_listings_by_owner", format!("listing {id} reported for {o} but not stored"))),
                                 Some(l) => {
                                     let stored = serde_json::to_value(&l.raw).unwrap();
-                                    if stored != *x {
+                                    if !json_subset(&stored, x) {
                                         r.findings.push(Finding::new("C16.page_content", "get_listings_by_owner", format!("listing {id} reported differently from what is stored")));
                                     }
                                 }
@@ -625,7 +634,7 @@ fn probe_queries(arg: u64, sim: &Sim, obs: &Obs, mon: &Monitor) -> ProbeResult {
                             match obs.bucket_at(o, id) {
                                 None => r.findings.push(Finding::new("C16.page_content", "get_buckets", format!("bucket {id} reported for {o} but not stored"))),
                                 Some(b) => {
-                                    if serde_json::to_value(&b.raw).unwrap() != x[1] {
+                                    if !json_subset(&serde_json::to_value(&b.raw).unwrap(), &x[1]) {
                                         r.findings.push(Finding::new("C16.page_content", "get_buckets", format!("bucket {id} reported differently from what is stored")));
                                     }
                                 }
